@@ -570,6 +570,32 @@ def run_other(case):
             wg = np.real(f(G))
             refg = np.linalg.eigvalsh(np.moveaxis(G.reshape(d, d, -1), -1, 0)).T.reshape(d, 2, 3)
             c.cmp("shape=(2,3)", "batch axes (2,3)", np.sort(wg, axis=0), refg, tol)
+        # numeric regime: nearly equal eigenvalues (a nearly undeformed / nearly equi-biaxial state): R diag(l, l (1 + delta), ..) R^T
+        # for delta down to 1e-12, several magnitudes and axes; the exact eigenvalues are known, tolerance 1e-13 relative
+        if d >= 2:
+            mats, exact = [], []
+            for l_ in (1.0, 1.3, 2.5e3, 4e-4):
+                for dl in (1e-3, 1e-6, 1e-9, 1e-12, 0.0):
+                    for ang in (0.0, 0.3, 17 * np.pi / 180, 1.1):
+                        ev = np.array([l_, l_ * (1 + dl)] + ([l_ * (1 + 2.5 * dl)] if d == 3 else []))
+                        R = zoo.rot2(ang) if d == 2 else zoo.generic_rotations(seed + int(ang * 10), 1)[0]
+                        M_ = R @ np.diag(ev) @ R.T
+                        mats.append(0.5 * (M_ + M_.T))
+                        exact.append(np.sort(ev))
+            ND = np.ascontiguousarray(np.moveaxis(np.array(mats), 0, -1))
+            EX = np.array(exact).T  # (d, n)
+            if name in ("eigh", "eig"):
+                wn, vn = (fm.eigh(ND) if name == "eigh" else fm.eig(ND))
+                wn = np.sort(np.real(wn), axis=0)
+            else:
+                wn = np.sort(np.real((fm.eigvalsh if name == "eigvalsh" else fm.eigvals)(ND)), axis=0)
+            c.trans += 1
+            err = np.abs(wn - EX) / np.abs(EX).max(0)
+            if not err.max() <= 2e-13:
+                j_ = int(np.argmax(err.max(0)))
+                c.bad("near-degenerate/values", f"{name} for tensors with nearly equal eigenvalues vs the exact values", dict(rel_err=float(err.max()), got=wn[:, j_].tolist(), exact=EX[:, j_].tolist()), 0, 2e-13)
+            else:
+                c.nontrivial.append("near-degenerate")
         if not np.array_equal(S, S0):
             c.bad("lattice/inputs", "inputs modified", "modified", "unchanged")
         return c.result(dict(case=case["key"], lattice=int(N)))
